@@ -33,6 +33,9 @@ def relErrScale (A B : RMat) (extra : Rat) : Float :=
   let s := if s0 < extra then extra else s0
   ratToFloat (d / (if s < 1 then 1 else s))
 
+/-- entrywise absolute value (forward-error scale of a matrix product: `|fl(AB) − AB| ≲ n·eps·|A||B|`) -/
+def absR (A : RMat) : RMat := RMat.ofFn A.n A.m (fun i j => let x := A.get i j; if x < 0 then -x else x)
+
 def vecR {n : Nat} (x : Array Rat) (off : Nat := 0) : Vec Rat n := ofArray n x off
 
 def colVec (v : Array Rat) : RMat := ⟨v.size, 1, v⟩
@@ -81,14 +84,17 @@ def runAuditD (op : String) (d : GDesc) (x : Array Rat) : Except String (Array F
   | "a_compose" =>
     let g1 : Vec Rat G.rep := vecR x; let g2 : Vec Rat G.rep := vecR x G.rep
     let o : Vec Rat G.rep := vecR x (2 * G.rep)
-    return #[relErr (M o) ((M g1).mul (M g2))]
+    -- relative to the forward-error scale max(|M g1|·|M g2|): when the exact product cancels (g·g with a
+    -- half-turn rotation: R t + t ≈ 0) the achievable accuracy is eps·(|R||t| + |t|), not eps·|R t + t|
+    return #[relErrScale (M o) ((M g1).mul (M g2)) ((absR (M g1)).mul (absR (M g2))).maxAbs]
   | "a_assoc" =>
     -- inputs g1 g2 g3, out = (g1 g2) g3, out2 = g1 (g2 g3)
     let g1 : Vec Rat G.rep := vecR x; let g2 : Vec Rat G.rep := vecR x G.rep
     let g3 : Vec Rat G.rep := vecR x (2 * G.rep)
     let o1 : Vec Rat G.rep := vecR x (3 * G.rep); let o2 : Vec Rat G.rep := vecR x (4 * G.rep)
     let P := ((M g1).mul (M g2)).mul (M g3)
-    return #[relErr (M o1) P, relErr (M o2) P]
+    let sc := (((absR (M g1)).mul (absR (M g2))).mul (absR (M g3))).maxAbs
+    return #[relErrScale (M o1) P sc, relErrScale (M o2) P sc]
   | "a_inverse" =>
     let g : Vec Rat G.rep := vecR x; let o : Vec Rat G.rep := vecR x G.rep
     match (M g).inverse with
@@ -115,7 +121,12 @@ def runAuditD (op : String) (d : GDesc) (x : Array Rat) : Except String (Array F
   | "a_vec" =>
     -- inputs: expected (dof), got (dof): max|got−expected|/max(1,|expected|)
     let n := x.size / 2
-    return #[relErr (colVec (x.extract n x.size)) (colVec (x.extract 0 n))]
+    -- second number: the same error relative to max|expected| without the floor at 1 ("uniformly in a,
+    -- for arbitrarily small a"): 0 for 0 = 0, 1e300 when expected = 0 and got ≠ 0
+    let ex := colVec (x.extract 0 n); let got := colVec (x.extract n x.size)
+    let dd := (got.sub ex).maxAbs; let em := ex.maxAbs
+    let rel : Float := if em == 0 then (if dd == 0 then 0 else 1e300) else ratToFloat (dd / em)
+    return #[relErr got ex, rel]
   | "a_Ad" =>
     -- inputs g, a, Ad(g) (dof×dof): hat(Ad·a)·M(g) = M(g)·hat(a)
     let g : Vec Rat G.rep := vecR x; let a : Vec Rat G.dof := vecR x G.rep
@@ -131,7 +142,12 @@ def runAuditD (op : String) (d : GDesc) (x : Array Rat) : Except String (Array F
     let br := x.extract (2 * G.dof + G.dof * G.dof) x.size
     let Ab := (A.mul (colVec (toArray b))).a
     let comm := ((H a).mul (H b)).sub ((H b).mul (H a))
-    return #[relErr (H (vecR Ab)) comm, relErr (colVec br) (colVec Ab)]
+    -- third/fourth numbers: the same two errors relative to the BILINEAR scale |a|·|b| (a bracket that is
+    -- wrong only for a tiny argument is invisible relative to max(1, ·))
+    let am := (colVec (toArray a)).maxAbs; let bm := (colVec (toArray b)).maxAbs
+    let bil (d : Rat) : Float := if am * bm == 0 then (if d == 0 then 0 else 1e300) else ratToFloat (d / (am * bm))
+    return #[relErr (H (vecR Ab)) comm, relErr (colVec br) (colVec Ab),
+             bil ((H (vecR Ab)).sub comm).maxAbs, bil ((colVec br).sub (colVec Ab)).maxAbs]
   | "a_Adexp" =>
     -- inputs a, Ad(exp a): must be the matrix exponential of ad(a)
     let a : Vec Rat G.dof := vecR x
